@@ -33,7 +33,7 @@ ASSUMPTIONS = ["project is checked for the rank id only when the caller passes r
 OPS = ["construct", "splitUniform", "splitEqual", "splitNonUniform", "splitUnEqual", "truediv", "floordiv", "swizzle",
        "swap", "flatten", "merge", "flatten_unflatten", "flatten_twice", "updateCoords", "updatePayloads", "deepcopy",
        "yaml", "fill_in_steps", "from_ragged", "split_swizzle", "split_swizzle", "flatten_elsewhere",
-       "estimate_by_fibers", "flatten_deep", "flatten_deep"]
+       "estimate_by_fibers", "flatten_deep", "flatten_deep", "merge_narrowed"]
 
 
 @st.composite
@@ -42,6 +42,8 @@ def cases(draw):
     d = draw(st.sampled_from([1, 2, 2, 3, 3, 4]))
     if op in ("flatten_elsewhere", "flatten_deep"):
         d = 4
+    if op == "merge_narrowed":
+        d = 3
     if op in ("flatten", "flatten_unflatten", "merge", "flatten_twice"):
         d = draw(st.sampled_from([2, 3, 3, 4, 4]))      # (several levels need several ranks)
     c = {"op": op, "how": draw(st.sampled_from(["ref", "fiber", "fiber", "uncompressed", "yaml", "deepcopy", "random",
@@ -131,13 +133,18 @@ def check(case, rec):
     spec = case["spec"]
     d, default = model.depth(spec), spec["default"]
     ids, shape = list(spec["rank_ids"]), list(spec["shape"])
-    t, auth = make_tensor(case)
-    fmts, mut = list(case["fmts"]), case["mutable"]
     op, sel = case["op"], case["sel"]
     deep = op == "flatten_deep"          # all four ranks into one, in one call
     if deep:
         op = ["flatten", "flatten_unflatten", "merge"][sel[3] % 3]
         case = dict(case, levels=3)
+    narrowed = op == "merge_narrowed"    # colliding sub-fibers with active ranges of their own
+    if narrowed:
+        op = "merge"
+        case = dict(case, levels=1, mstyle="absolute", fmts=["C"] * 3)
+        sel = [0, sel[1], sel[2], 1]
+    t, auth = make_tensor(case)
+    fmts, mut = list(case["fmts"]), case["mutable"]
     ashape = list(shape) if auth else None
     depth = sel[0] % d
     S = shape[depth]
@@ -232,6 +239,16 @@ def check(case, rec):
         nid = ids[:dd] + [merged_ids] + ids[dd + levels + 1:]
         ns = shape[:dd] + [ms] + shape[dd + levels + 1:]
         nf = fmts[:dd] + [None] + fmts[dd + levels + 1:]
+        if sel[3] % 2 and all(f == "C" for f in fmts):
+            # fibers below the merged rank with narrowed active ranges of their own (as a populate from an interval
+            # projection leaves them): different starts and ends, every stored coordinate inside
+            for lvl_, rk in enumerate(t.ranks):
+                if lvl_ > dd:
+                    for i_, f_ in enumerate(rk.getFibers()):
+                        if f_.coords and i_ % 2 == sel[2] % 2:
+                            f_.setActive((f_.coords[0], f_.coords[-1] + 1))
+            coords_in_shape(t, "operand with narrowed active ranges")
+            rec.cls("narrowed-active-ranges-below-merge")
         if op == "merge":
             r = t.mergeRanks(depth=dd, levels=levels, coord_style=style)
         else:
@@ -297,7 +314,17 @@ def check(case, rec):
             return [[c, sub(kind, lvl + 1)] for c in sorted({0, top})]
         tree = [[i, sub(k_, 1)] for i, k_ in enumerate(kinds)]
         spec2 = {"rank_ids": ids, "shape": [len(kinds)] + shape[1:], "default": default, "tree": tree, "auth": False}
-        r = build.build_tensor(spec2, "fiber" if sel[2] % 2 else "ref")
+        if sel[2] % 3 == 2:
+            # hand-built fibers that each carry a shape of their own (their own extent), as the roots of
+            # tensors of different widths stacked under a new rank do
+            def hand(tr, lvl):
+                cs = [c for c, _ in tr]
+                ps = [ch if lvl == d - 1 else hand(ch, lvl + 1) for _, ch in tr]
+                return Fiber(cs, ps, shape=(max(cs) + 1) if cs else None)
+            r = Tensor.fromFiber(list(ids), hand(tree, 0), default=default)
+            rec.cls("sibling-fibers-with-shapes-of-their-own")
+        else:
+            r = build.build_tensor(spec2, "fiber" if sel[2] % 3 else "ref")
         where = f"tensor without declared shape built from sibling fibers of kinds {kinds} (0 long, 1 empty, 2 short)"
         expect(r, where, ids=ids, default=default)
         rec.cls("empty-fiber-before-shorter-sibling", any(a == 1 and 2 in kinds[i + 1:] and 0 in kinds[:i]
@@ -379,6 +406,7 @@ def check(case, rec):
         observe.rank_consistency(r, where)
     rec.cls(op)
     rec.cls("flatten_deep", deep)
+    rec.cls("merge_narrowed", narrowed)
     rec.cls("estimated-shape", not auth)
     rec.cls("nonzero-default", default != 0)
     rec.cls("has-U", "U" in fmts)
